@@ -101,6 +101,9 @@ PATT_SEMI_AHEAD = re.compile(
     r'|/\*(?:[^*]|\*(?!/))*\*/'
     r'|//[^\n\r\u2028\u2029]*(?=[\n\r\u2028\u2029]|$)'
     r')*;')
+# likewise a colon, which makes the word in front of it the name of a
+# property in an object literal.
+PATT_COLON_AHEAD = re.compile(PATT_SEMI_AHEAD.pattern[:-1] + ':')
 
 PATT_LINE_TERMINATOR_SEQUENCE = re.compile(
     r'(\n|\r(?!\n)|\u2028|\u2029|\r\n)', flags=re.S)
@@ -387,10 +390,12 @@ class Lexer(object):
             self.cur_token.after_line_terminator = self.line_terminated
             self.line_terminated = False
             # an IdentifierName following a dot is a property name
-            # (11.2.1), even if it is spelled like a reserved word.
+            # (11.2.1), even if it is spelled like a reserved word; so
+            # is the one naming an accessor property (11.1.5).
             self.cur_token.after_period = (
                 self.prev_token_real is not None and
-                self.prev_token_real.type == 'PERIOD')
+                self.prev_token_real.type in (
+                    'PERIOD', 'GETPROP', 'SETPROP'))
 
     def _is_property_name(self, token):
         # whether the real token is a reserved word following a dot, i.e.
@@ -479,6 +484,9 @@ class Lexer(object):
             if PATT_SEMI_AHEAD.match(self.lexer.lexdata, self.lexer.lexpos):
                 # the statement is terminated by a real semicolon, which
                 # is only separated from the keyword by layout.
+                return self.cur_token
+            if PATT_COLON_AHEAD.match(self.lexer.lexdata, self.lexer.lexpos):
+                # the keyword is the name of a property (`{return: 1}`)
                 return self.cur_token
             if self.cur_token.type in COMMENTS:
                 # the comment itself is still to be provided
